@@ -330,6 +330,7 @@ func (p *polling) write(data types.BufferInterface, options *packet.Options) {
 		p.OnError("polling write error", nil)
 		return
 	}
+	vhook.Yield("polling.write.taken")
 	p.Proto().(Polling).DoWrite(ctx, data, options, func(err error) {
 		if err != nil {
 			p.OnError("polling write error", err)
